@@ -149,7 +149,7 @@ where
             encoding,
             from_header.line_encoding(),
             comp_dir,
-            comp_name,
+            comp_name.clone(),
             comp_file_info,
         );
 
@@ -161,8 +161,11 @@ where
             // something there makes the indexing easier.
             0
         } else {
-            // We don't add the first file to `files`, but still allow
-            // it to be referenced from converted instructions.
+            // File index 0 is the primary source file of the unit. Rows may name
+            // it, but gimli has no public id for that slot, so give it an entry
+            // of its own that converted rows can refer to.
+            let dir = program.default_directory();
+            files.push(program.add_file(comp_name, dir, comp_file_info));
             1
         };
 
@@ -259,13 +262,20 @@ where
                                     program.row().op_index = from_row.op_index();
                                     program.row().file = {
                                         let file = from_row.file_index();
-                                        if file > files.len() as u64 {
-                                            return Err(write::ConvertError::InvalidFileIndex);
-                                        }
                                         if file == 0 && program.version() <= 4 {
                                             return Err(write::ConvertError::InvalidFileIndex);
                                         }
-                                        files[(file - 1) as usize]
+                                        // `files` starts at file index 1 for DWARF <= 4
+                                        // and at file index 0 for DWARF 5.
+                                        let index = if program.version() <= 4 {
+                                            file - 1
+                                        } else {
+                                            file
+                                        };
+                                        if index >= files.len() as u64 {
+                                            return Err(write::ConvertError::InvalidFileIndex);
+                                        }
+                                        files[index as usize]
                                     };
                                     program.row().line = match from_row.line() {
                                         Some(line) => line.get(),
